@@ -1,10 +1,11 @@
 #!/bin/bash
 # copy round-N deliveries (/tmp/seed_outN/<PID>/<i>) into /tmp/seed_out/<PID>/<i + 3*(N-1)> so that the validation tools see them
-n=${1:-2}
-for d in /tmp/seed_out$n/C*/[0-9]; do
+n=${1:-2}; shift
+# usage: import_round.sh N PID [PID...]   (only properties whose agent has reported completion)
+for pidsel in "$@"; do for d in /tmp/seed_out$n/$pidsel/[0-9]; do
   pid=$(basename $(dirname $d)); i=$(basename $d); j=$((i + 3*(n-1)))
   [ -f $d/patch.diff ] && [ -f $d/meta.json ] || continue
   [ -d /tmp/seed_out/$pid/$j ] && continue
   mkdir -p /tmp/seed_out/$pid/$j && cp $d/patch.diff $d/meta.json /tmp/seed_out/$pid/$j/ && cp $d/demo.py /tmp/seed_out/$pid/$j/ 2>/dev/null; cp $d/test_demo.py /tmp/seed_out/$pid/$j/ 2>/dev/null
   echo "imported $pid/$i -> $pid/$j"
-done
+done; done
